@@ -25,8 +25,9 @@ def _calc_overlapping_labels(
     Returns:
         _type_: _description_
     """
-    overlap_arr = prediction_arr.astype(np.uint32)
-    max_ref = max(ref_labels) + 1
+    # 64-bit pair codes and a Python int multiplier: pred * max_ref + ref must not wrap for large labels
+    overlap_arr = prediction_arr.astype(np.uint64)
+    max_ref = int(max(ref_labels)) + 1
     overlap_arr = (overlap_arr * max_ref) + reference_arr
     overlap_arr[reference_arr == 0] = 0
     # overlapping_indices = [(i % (max_ref), i // (max_ref)) for i in np.unique(overlap_arr) if i > max_ref]
@@ -35,7 +36,7 @@ def _calc_overlapping_labels(
     # (ref, pred)
     return [
         (int(i % (max_ref)), int(i // (max_ref)))
-        for i in np.unique(overlap_arr)
+        for i in np.unique(overlap_arr).tolist()
         if i > max_ref
     ]
 
